@@ -839,7 +839,7 @@ func runC10(r *hx.Result, cfg hx.Config) {
 		corpus[i].Seed = cfg.Seed + int64(i)
 		x.scenario(corpus[i])
 	}
-	n, budget := 7, 50*time.Second
+	n, budget := 5, 45*time.Second
 	if cfg.Tier == "thorough" {
 		n, budget = 150, 12*time.Minute
 	}
